@@ -345,6 +345,12 @@ def main(argv):
                     missing = [f.name() for f in eqs.values() if not re.search(r"\b%s\(const casadi_real\*\* arg" % re.escape(f.name()), txt)]
                     if missing:
                         report["option_failures"].append({"set": sname, "options": kw, "what": "functions missing from the output: %s" % missing})
+                    # an accepted option must be honoured: the memory-management layer (casadi/mem.h, <fn>_functions tables),
+                    # the header file and the main() entry are present exactly when they were requested
+                    for opt, probe in (("with_mem", lambda: "casadi/mem.h" in txt), ("main", lambda: re.search(r"\bint main\(", txt) is not None),
+                                       ("mex", lambda: "mexFunction" in txt), ("with_header", lambda: os.path.exists(os.path.join(d2, stem + ".h")))):
+                        if opt in kw and bool(probe()) != bool(kw[opt]):
+                            report["option_failures"].append({"set": sname, "options": kw, "what": "option %s=%s accepted but not honoured in %s" % (opt, kw[opt], stem)})
             except Exception as e:
                 report["option_failures"].append({"set": sname, "options": kw, "what": "%s: %s" % (type(e).__name__, str(e)[:200])})
         # history dependence: the default output must be byte-identical after other option combinations were used
